@@ -191,7 +191,20 @@ pub fn exec_child_with(prop: &str, sc: &serde_json::Value, scratch: &Path, relea
     }
 }
 
-/// Run a command, capture stdout, kill it after `limit`.
+/// CPU seconds (user + system) consumed so far by a process, from /proc/<pid>/stat.
+/// The watchdogs count CPU time, not wall-clock time, so that a loaded machine cannot
+/// make a healthy run look stuck.
+fn cpu_seconds(pid: u32) -> Option<f64> {
+    let s = std::fs::read_to_string(format!("/proc/{pid}/stat")).ok()?;
+    // the command name may contain spaces: fields start after the closing parenthesis
+    let rest = &s[s.rfind(')')? + 2..];
+    let f: Vec<&str> = rest.split(' ').collect();
+    let utime: f64 = f.get(11)?.parse().ok()?;
+    let stime: f64 = f.get(12)?.parse().ok()?;
+    Some((utime + stime) / 100.0)
+}
+
+/// Run a command, capture stdout, kill it after `limit` of CPU time (or 20x that of wall-clock time).
 fn run_with_timeout(cmd: &mut Command, limit: Duration) -> Result<std::process::Output, String> {
     use std::io::Read;
     let mut ch = cmd.spawn().map_err(|e| e.to_string())?;
@@ -204,6 +217,7 @@ fn run_with_timeout(cmd: &mut Command, limit: Duration) -> Result<std::process::
         buf
     });
     let t0 = Instant::now();
+    let pid = ch.id();
     loop {
         match ch.try_wait().map_err(|e| e.to_string())? {
             Some(status) => {
@@ -211,7 +225,8 @@ fn run_with_timeout(cmd: &mut Command, limit: Duration) -> Result<std::process::
                 return Ok(std::process::Output { status, stdout, stderr: vec![] });
             }
             None => {
-                if t0.elapsed() > limit {
+                let cpu = cpu_seconds(pid).unwrap_or(0.0);
+                if cpu > limit.as_secs_f64() || t0.elapsed() > limit * 20 {
                     let _ = ch.kill();
                     let _ = ch.wait();
                     let _ = reader.join();
@@ -413,6 +428,8 @@ pub fn run_slices(prop: &str, tier: Tier, seed: u64, total: u64, nw: u64, dir: &
     let stall = Duration::from_secs(std::env::var("SIM_RUN_TIMEOUT_S").ok().and_then(|s| s.parse().ok()).unwrap_or(if tier == Tier::Quick { 90 } else { 300 }));
     let mut last_size: Vec<u64> = vec![0; nw as usize];
     let mut last_move: Vec<Instant> = vec![Instant::now(); nw as usize];
+    // CPU seconds of the worker when its journal last moved
+    let mut cpu_at_move: Vec<f64> = vec![0.0; nw as usize];
     loop {
         let mut any = false;
         for w in 0..nw as usize {
@@ -424,12 +441,16 @@ pub fn run_slices(prop: &str, tier: Tier, seed: u64, total: u64, nw: u64, dir: &
                 None => {
                     let jp = dir.join(format!("journal-{w}.log"));
                     let sz = std::fs::metadata(&jp).map(|m| m.len()).unwrap_or(0);
+                    let cpu = cpu_seconds(ch.id()).unwrap_or(0.0);
                     if sz != last_size[w] {
                         last_size[w] = sz;
                         last_move[w] = Instant::now();
+                        cpu_at_move[w] = cpu;
                         continue;
                     }
-                    if last_move[w].elapsed() < stall || last_begin_without_end(&jp).is_none() {
+                    // stuck = the open run has burnt `stall` seconds of CPU (or 20x that of wall-clock time)
+                    let burnt = cpu - cpu_at_move[w];
+                    if (burnt < stall.as_secs_f64() && last_move[w].elapsed() < stall * 20) || last_begin_without_end(&jp).is_none() {
                         continue;
                     }
                     let _ = ch.kill();
@@ -439,6 +460,7 @@ pub fn run_slices(prop: &str, tier: Tier, seed: u64, total: u64, nw: u64, dir: &
             };
             children[w] = None;
             last_move[w] = Instant::now();
+            cpu_at_move[w] = 0.0;
             if st.success() {
                 continue;
             }
